@@ -144,7 +144,8 @@ ATOMIC_HISTORIES = {'quick': 6000, 'thorough': 300000}      # in addition to HIS
 BIG_RANDOM_STRINGS = {'quick': 4000, 'thorough': 200000}    # in addition to RANDOM_STRINGS
 DPKG_SAMPLE = 300
 
-# about 50% of what the unchanged tree measures (minimum over VERIF_SEED 0..3); the copy:/isolation:/fresh:/remove:/hist: floors
+# about 50% of what the unchanged tree measures (minimum over VERIF_SEED 0..3; re-measured in round 9 after the quick random
+# workloads were trimmed by 5% to pay for the alias enumeration - the older floors are still 46..53% of the measurement); the copy:/isolation:/fresh:/remove:/hist: floors
 # make a run that never exercises state between objects or component removals INCONCLUSIVE rather than held; the bigepoch: and
 # late: floors do the same for very large epochs and late-refused full_version values (outcome-independent counters only; the
 # outcome-dependent ones are in conclusive())
@@ -171,7 +172,8 @@ FLOORS = {'quick': {'nontrivial': 86000,
                                  'late:full_version:on-object-with-epoch-and-revision': 2350}},
           'thorough': {'nontrivial': 2300000,
                        'monitors': {'M.construct': 2400000, 'M.assign': 2400000, 'M.rollback': 950000, 'K7': 11800000, 'K7.raise': 1600000,
-                                    'M.copy': 300000, 'M.fresh': 3000000, 'M.isolation': 7500000},
+                                    'M.copy': 300000, 'M.fresh': 3000000, 'M.isolation': 7500000, 'M.alias': 1000000,
+                                    'K7.alias': 9300000},
                        'counters': {'construct:accept/accepted': 780000, 'construct:reject/rejected': 1500000,
                                     'assign:ok': 1490000, 'assign:raised': 950000,
                                     'hist:init-from-pool': 320000, 'copy:mutate-copy': 150000, 'copy:mutate-original': 150000,
@@ -195,7 +197,7 @@ FLOORS = {'quick': {'nontrivial': 86000,
 # smallest cell measured on the unchanged tree (minimum over VERIF_SEED 0..3); a run that never assigns None / '' / valid /
 # re-splitting / invalid values through BOTH names to every object shape is INCONCLUSIVE
 ALIAS_CELL_FLOOR = {'quick': {'none': 75, 'empty': 50, 'valid': 250, 'resplit': 45, 'invalid': 150},
-                    'thorough': {'none': 1, 'empty': 1, 'valid': 1, 'resplit': 1, 'invalid': 1}}
+                    'thorough': {'none': 3300, 'empty': 1300, 'valid': 14500, 'resplit': 2900, 'invalid': 9400}}
 ALIAS_FLOOR_SHAPES = ('norev/noepoch', 'norev/epoch', 'norev/epoch/colon', 'rev/noepoch', 'rev/noepoch/hyphen', 'rev/epoch',
                       'rev/epoch/colon', 'rev/epoch/hyphen', 'rev/epoch/colon/hyphen')
 for _tier, _floors in ALIAS_CELL_FLOOR.items():
@@ -209,7 +211,7 @@ BIG_OBJECT_FLOORS = {'quick': {'bigepoch:assign-on-big-object': 5900, 'late:full
                                'bigepoch:assign:debian_version': 480, 'bigepoch:assign:debian_revision': 480,
                                'bigepoch:assign:upstream_version': 860},
                      'thorough': {'bigepoch:assign-on-big-object': 300000, 'late:full_version:on-big-epoch-object': 94000,
-                                  'bigepoch:assign:debian_version': 27000, 'bigepoch:assign:debian_revision': 18000,
+                                  'bigepoch:assign:debian_version': 25000, 'bigepoch:assign:debian_revision': 25000,
                                   'bigepoch:assign:upstream_version': 44000}}
 
 
